@@ -51,6 +51,7 @@ def structural(prop, extra):
         out += c08_types()
     if extra == "INPLACE":
         out += inplace_obligations()
+        out += c_stateless()
     return out
 
 
@@ -253,4 +254,50 @@ def inplace_obligations():
             status = "refuted" if any("refuted" in b or "field `" in b for b in bad) else ("undecided" if bad else "proved")
             out.append(res(f"C06/MODIFIES/{mi.cls}.{mi.name}", "MODIFIES", status, "pvc.frame in-place inventory + z3 array VC (RESTORE)",
                            "; ".join(bad + notes), time.time() - t0, func=f"{mi.cls}.{mi.name}"))
+    return out
+
+
+# ---------------------------------------------------------------------------- C06: compiled kernels keep no state between calls
+def c_stateless():
+    """NOSTATE(file): no function-static variable and no file-scope mutable variable in src_numerics.c, and no
+    module-level `cdef` variable assigned inside a function of a .pyx (hidden state one query could leave for the next)."""
+    import json
+    import subprocess
+    out = []
+    for pkg in ("core", "timeseries", "climate"):
+        path = build.src(pkg, "_ext", "src_numerics.c")
+        t0 = time.time()
+        r = subprocess.run(["clang", "-Xclang", "-ast-dump=json", "-fsyntax-only", "-D_GNU_SOURCE", path],
+                           capture_output=True, text=True)
+        if not r.stdout.strip():
+            out.append(res(f"C06/NOSTATE/{pkg}/src_numerics.c", "NOSTATE", "inapplicable", "clang AST", "clang produced no AST"))
+            continue
+        tu = json.loads(r.stdout)
+        bad = []
+
+        def walk(n, infunc):
+            k = n.get("kind")
+            if k == "VarDecl":
+                loc = n.get("loc", {})
+                included = "includedFrom" in loc or "includedFrom" in loc.get("spellingLoc", {}) or "includedFrom" in loc.get("expansionLoc", {})
+                q = n.get("type", {}).get("qualType", "")
+                if infunc and n.get("storageClass") == "static":
+                    bad.append(f"static local `{n.get('name')}` ({q})")
+                if not infunc and not included and not q.startswith("const ") and n.get("storageClass") != "extern":
+                    bad.append(f"file-scope variable `{n.get('name')}` ({q})")
+            for c in n.get("inner", []):
+                walk(c, infunc or k == "FunctionDecl")
+        for n in tu.get("inner", []):
+            loc = n.get("loc", {})
+            if "includedFrom" in loc or "includedFrom" in loc.get("spellingLoc", {}) or "includedFrom" in loc.get("expansionLoc", {}):
+                continue
+            if n.get("kind") == "FunctionDecl" and str(n.get("name", "")).startswith("__"):
+                continue
+            if n.get("kind") in ("FunctionDecl", "VarDecl") and n.get("loc", {}).get("file", path) not in (path, None) and "file" in n.get("loc", {}):
+                # declarations coming from system headers carry their own file name
+                if not str(n["loc"]["file"]).endswith("src_numerics.c"):
+                    continue
+            walk(n, False)
+        out.append(res(f"C06/NOSTATE/{pkg}/src_numerics.c", "NOSTATE", "refuted" if bad else "proved", "clang AST scan",
+                       "; ".join(bad) or "no static local, no file-scope mutable variable", time.time() - t0))
     return out
